@@ -785,10 +785,20 @@ func resStress(r *vk.Run) {
 		// a third of the collections fold the case of ids: the writer then names the item in another spelling than the
 		// subscriber did, it is the same item all the same
 		delID := "a"
-		if rng.Chance(1, 3) {
-			w.col = resource.NewCollection(resource.WithClock(clk{}), resource.WithIDInterceptor(strings.ToLower), resource.WithInitialRecord("a", &tat{DefaultString: "a-init"}), resource.WithInitialRecord("b", &tat{DefaultString: "b-init"}))
-			delID = "A"
-			r.Count("pullid-removal-scenarios-with-case-folding-ids", 1)
+		fold, nodup := rng.Chance(1, 3), rng.Chance(1, 3)
+		if fold || nodup {
+			copts := []resource.Option{resource.WithClock(clk{}), resource.WithInitialRecord("a", &tat{DefaultString: "a-init"}), resource.WithInitialRecord("b", &tat{DefaultString: "b-init"})}
+			if fold {
+				copts = append(copts, resource.WithIDInterceptor(strings.ToLower))
+				delID = "A"
+				r.Count("pullid-removal-scenarios-with-case-folding-ids", 1)
+			}
+			if nodup {
+				// a third of the collections suppress duplicates: a removal is news whatever the subscriber was sent before
+				copts = append(copts, resource.WithNoDuplicates())
+				r.Count("pullid-removal-scenarios-with-equivalence", 1)
+			}
+			w.col = resource.NewCollection(copts...)
 		}
 		sched.Stress(rng.Uint64() | 1)
 		ctx, cancel := context.WithCancel(context.Background())
